@@ -64,11 +64,16 @@ class get_segment_header:
 class num_sections:
     """gABI extended numbering: e_shnum = 0 with a section table present means the count is sh_size of header 0"""
     params = dict(self=ELFFileT())
-    requires = INV + ["self.header.e_shoff <= self.stream_len"]
+    requires = INV
     returns = Int
     ensures = ["result == (0 if self.header.e_shoff == 0 else"
                " (P('Elf_Shdr', self.stream.B, self.header.e_shoff).sh_size if self.header.e_shnum == 0"
-               " else self.header.e_shnum))"]
+               " else self.header.e_shnum))",
+               "self.header.e_shoff == 0 or self.header.e_shnum != 0 or self.header.e_shoff <= self.stream_len"]
+    # the extended count lives in header 0: when that slot starts beyond the end of the file there is no header to read it
+    # from and the code subscripts None (TypeError: allowed from an enumeration by C19; the constructor does not count sections)
+    raises = {"TypeError": "self.header.e_shoff != 0 and self.header.e_shnum == 0 and self.header.e_shoff > self.stream_len"
+                           " and not (self.header.e_shentsize < SZ('Elf_Shdr', self.elfclass))"}
     may_raise = ["ELFError"]
 
 
@@ -108,7 +113,7 @@ class make_section:
     ensures = ["kind(result) == section_kind(section_header.sh_type, secname(self._section_header_stringtable, section_header.sh_name))",
                "result.header == section_header",
                "result.name == secname(self._section_header_stringtable, section_header.sh_name)"]
-    may_raise = ["ELFError", "OverflowError", "TypeError"]      # TypeError: a section link to a slot beyond the end of the file
+    may_raise = ["ELFError", "OverflowError", "TypeError", "AttributeError"]      # TypeError: a section link to a slot beyond the end of the file
 
 
 @contract("elftools/elf/elffile.py", "ELFFile._make_segment", props=["C01"])
@@ -131,24 +136,30 @@ class get_segment:
 
 @contract("elftools/elf/elffile.py", "ELFFile.get_section", props=["C01"])
 class get_section:
+    """section n: header from slot n of the table, named through the section-name string table; with a tuple of
+    admissible types (links followed by the dynamic section) the type is one of them.  A slot that starts beyond the end
+    of the file has no header: the lookup answers None, which the name lookup subscripts (TypeError) and the type test
+    dereferences (AttributeError) -- never reached by the constructor (C19)"""
     params = dict(self=ELFFileT(_section_header_stringtable=Opt(SectionT('StringTableSection'))), n=Nat,
-                  type=Const(None))
-    requires = INV + ["self.header.e_shoff + n * self.header.e_shentsize <= self.stream_len"]
+                  type=OneOf(None, ('SHT_STRTAB', 'SHT_NOBITS')))
+    requires = INV
     returns = SecRet
+    ghost = {"$o": "self.header.e_shoff + n * self.header.e_shentsize"}
     ensures = ["result.header == P('Elf_Shdr', self.stream.B, self.header.e_shoff + n * self.header.e_shentsize)",
-               "result.name == secname(self._section_header_stringtable, result.header.sh_name)"]
-    may_raise = ["ELFError", "OverflowError", "TypeError"]
+               "result.name == secname(self._section_header_stringtable, result.header.sh_name)",
+               "$o <= self.stream_len", "type is None or result.header.sh_type in type"]
+    may_raise = ["ELFError", "OverflowError", "TypeError", "AttributeError"]
 
 
 @contract("elftools/elf/elffile.py", "ELFFile.num_segments", props=["C01", "C19"])
 class num_segments:
     """e_phnum below PN_XNUM (0xffff) is the count; PN_XNUM means sh_info of section header 0"""
     params = dict(self=ELFFileT(_section_header_stringtable=Opt(SectionT('StringTableSection'))))
-    requires = INV + ["self.header.e_shoff <= self.stream_len"]
+    requires = INV
     returns = Int
     ensures = ["result == (self.header.e_phnum if self.header.e_phnum < 0xffff"
                " else P('Elf_Shdr', self.stream.B, self.header.e_shoff).sh_info)"]
-    may_raise = ["ELFError", "OverflowError", "TypeError"]    # PN_XNUM builds section 0, which may follow a link beyond the file
+    may_raise = ["ELFError", "OverflowError", "TypeError", "AttributeError"]    # PN_XNUM builds section 0, which may follow a link beyond the file
 
 
 @contract("elftools/elf/elffile.py", "ELFFile.iter_segments", props=["C01", "C19"])
@@ -156,7 +167,7 @@ class iter_segments:
     """yields get_segment(0..num_segments-1) in file order"""
     params = dict(self=ELFFileT(_section_header_stringtable=Opt(SectionT('StringTableSection'))),
                   type=OneOf(None, 'PT_LOAD', 'PT_DYNAMIC', 'PT_NOTE'))
-    requires = INV + ["self.header.e_shoff <= self.stream_len"]
+    requires = INV
     yield_shape = SegRet
     # step: every index is visited and its segment is yielded exactly when no type is asked for or its type is the one asked for
     loops = {0: dict(invariant=["$n <= $k", "type is not None or $n == $k"], ghost_step={"$n0": "$n"},
@@ -166,19 +177,19 @@ class iter_segments:
                   "type is None or value.header.p_type == type",
                   "type is not None or $k0 == $n"]
     ensures = ["type is not None or $n == max(0, nseg(self))"]
-    may_raise = ["ELFError", "OverflowError", "TypeError"]
+    may_raise = ["ELFError", "OverflowError", "TypeError", "AttributeError"]
 
 
 @contract("elftools/elf/elffile.py", "ELFFile.iter_sections", props=["C01", "C19"])
 class iter_sections:
     params = dict(self=ELFFileT(_section_header_stringtable=Opt(SectionT('StringTableSection'))), type=Const(None))
-    requires = INV + ["self.header.e_shoff <= self.stream_len"]
+    requires = INV
     yield_shape = SecRet
     loops = {0: dict(invariant=["$k == $n"])}
     each_yield = ["value.header == P('Elf_Shdr', self.stream.B, self.header.e_shoff + $n * self.header.e_shentsize)",
                   "value.name == secname(self._section_header_stringtable, value.header.sh_name)"]
     ensures = ["$n == max(0, nsec(self))"]
-    may_raise = ["ELFError", "OverflowError", "TypeError"]
+    may_raise = ["ELFError", "OverflowError", "TypeError", "AttributeError"]
 
 
 # ---- constructors executed in place (their real bodies are plain attribute stores)
@@ -200,7 +211,30 @@ def _assumed_section_ctor(relpath, cls, props, extra=()):
     return _c
 
 
-_assumed_section_ctor("elftools/elf/dynamic.py", "DynamicSection", ["C01"])
+@contract("elftools/elf/dynamic.py", "Dynamic.__init__", props=["C01", "C09"])
+class dynamic_base_init:
+    inline = True
+
+
+@contract("elftools/elf/dynamic.py", "DynamicSection.__init__", props=["C01", "C09"])
+class dynsec_init:
+    """the section view of the dynamic array: the array starts at sh_offset, is empty exactly for SHT_NOBITS (a stripped
+    debug file), its entry size is that of Elf_Dyn for the class, and its strings come from the section in slot sh_link,
+    which must be a string table (or NOBITS)"""
+    params = dict(self=Obj('DynamicSection'), header=ShdrT, name=Str,
+                  elffile=ELFFileT(_section_header_stringtable=Opt(SectionT('StringTableSection'))))
+    requires = ["elffile.structs.elfclass == elffile.elfclass", "elffile.stream_len == len(elffile.stream.B)"]
+    sets = dict(header="header", name="name", elffile="elffile", stream="elffile.stream", structs="elffile.structs",
+                elfstructs="elffile.structs", _stream="elffile.stream", _offset="header.sh_offset",
+                _empty="header.sh_type == 'SHT_NOBITS'", _num_tags="0 if header.sh_type == 'SHT_NOBITS' else -1",
+                _tagsize="SZ('Elf_Dyn', elffile.elfclass)")
+    sets_shape = dict(_stringtable=Obj('Section', header=ShdrT, name=Str))
+    ensures = ["self._stringtable.header == P('Elf_Shdr', elffile.stream.B, elffile.header.e_shoff + header.sh_link * elffile.header.e_shentsize)",
+               "self._stringtable.header.sh_type in ('SHT_STRTAB', 'SHT_NOBITS')",
+               "elffile.header.e_shoff + header.sh_link * elffile.header.e_shentsize <= elffile.stream_len"]
+    may_raise = ["ELFError", "OverflowError", "TypeError", "AttributeError"]
+
+
 _assumed_section_ctor("elftools/elf/relocation.py", "RelocationSection", ["C01"])
 _assumed_section_ctor("elftools/elf/relocation.py", "RelrRelocationSection", ["C01"])
 _assumed_section_ctor("elftools/elf/sections.py", "AttributesSection", ["C01"])
@@ -234,7 +268,7 @@ def _helper(name, cls, attr, want, ctor_inline=True):
             ["result.%s == section_header.sh_link" % attr] if want is None else
             ["result.%s.header == P('Elf_Shdr', self.stream.B, $o)" % attr,
              "result.%s.header.sh_type in %r" % (attr, want), "$o <= self.stream_len"])
-        may_raise = ["ELFError", "OverflowError"] + ([] if want is None else ["TypeError"])
+        may_raise = ["ELFError", "OverflowError"] + ([] if want is None else ["TypeError", "AttributeError"])
     return _h
 
 
@@ -295,10 +329,9 @@ class get_section_by_name:
     """the section at the index the name map holds for the name -- also when that index is 0 -- and None
     exactly for unknown names"""
     params = dict(self=NameMapFile, name=A_NAME)
-    requires = INV + ["name not in self._section_name_map or self.header.e_shoff + self._section_name_map[name] * self.header.e_shentsize"
-                      " <= self.stream_len"]      # indices in the map come from the enumeration of existing headers
+    requires = INV
     returns = Opt(Obj('Section', header=ShdrT, name=Str))
     ensures = ["(result is None) == (name not in self._section_name_map)",
                "result is None or result.header == P('Elf_Shdr', self.stream.B, self.header.e_shoff"
                " + self._section_name_map[name] * self.header.e_shentsize)"]
-    may_raise = ["ELFError", "OverflowError", "UnicodeDecodeError", "TypeError"]
+    may_raise = ["ELFError", "OverflowError", "UnicodeDecodeError", "TypeError", "AttributeError"]
